@@ -1,6 +1,7 @@
 package storesim
 
 import (
+	"os"
 	"encoding/hex"
 	"fmt"
 
@@ -239,6 +240,9 @@ func executeEnum(tr *Trace) (*core.Result, error) {
 		return nil, err
 	}
 	total := res
+	// the hashes of the uninterrupted run: every crash variant must come back to them
+	refHashes = hashSinkLast
+	defer func() { refHashes = nil }()
 	seen := map[string]bool{}
 	for _, v := range total.Violations {
 		seen[v.Signature()] = true
@@ -268,6 +272,9 @@ func executeEnum(tr *Trace) (*core.Result, error) {
 			points++
 			total.Stats.Merge(r.Stats)
 			for _, v := range r.Violations {
+				if os.Getenv("VERIF_DEBUG") != "" {
+					fmt.Fprintf(os.Stderr, "DEBUG enum: commit step %d crash before event %d/%d ioerr=%v: %s %s\n", si, k, n, kv >= n, v.Oracle, v.Detail)
+				}
 				if !seen[v.Signature()] {
 					seen[v.Signature()] = true
 					total.Violations = append(total.Violations, v)
@@ -283,13 +290,19 @@ func executeEnum(tr *Trace) (*core.Result, error) {
 
 func executeCounting(tr *Trace) (*core.Result, map[int]int, error) {
 	countSink = map[int]int{}
-	defer func() { countSink = nil }()
+	hashSink = map[int64][]byte{}
+	defer func() { countSink, hashSink = nil, nil }()
 	res, err := execute(tr)
 	out := countSink
+	hashSinkLast = hashSink
 	return res, out, err
 }
 
 var countSink map[int]int
+
+// hashSink collects version -> hash of the run in progress (the counting run of an enumeration); refHashes are the
+// hashes of that uninterrupted run while the crash variants execute.
+var hashSink, hashSinkLast, refHashes map[int64][]byte
 
 func (Engine) Sample(trace []byte) interface{} {
 	tr, err := Unmarshal(trace)
